@@ -161,8 +161,10 @@ def item_rs(it):
          a.get("type") is not None and f'type = {rs_str(a["type"])}',
          a.get("concrete") and not a.get("concrete_split") and "concrete(" + ", ".join(f"{c['name']} = {ty_rs(c['ty'])}" for c in a["concrete"]) + ")",
          a.get("optional_fields") == "optional" and "optional_fields", a.get("optional_fields") == "nullable" and "optional_fields = nullable"]
+    # bare-word serde keys ts-rs does not support, written FIRST in the list (they must not disturb the keys after them)
+    S = [w for w in a.get("serde_bare_first", [])] + S
     if not serde_on:
-        T = [x for x in S] + T
+        T = [x for x in S if x not in a.get("serde_bare_first", [])] + T
         S = []
     gens = it.get("generics", [])
     g = "<" + ", ".join(p["name"] + (f" = {ty_rs(p['default'])}" if p.get("default") else "") for p in gens) + ">" if gens else ""
